@@ -75,17 +75,17 @@ def dispatch(chk, P):
     role = {}
     for call, kid, kt in (("calcTimeOfNextScheduledEvent", "scheduledEventIds", "nextScheduledEvent"), ("calcTimeOfNextScheduledReport", "scheduledReportIds", "nextScheduledReport")):
         cs0 = [e for _, _, e in f.calls("SimTK::System::" + call)]
-        chk.judge(len(cs0) == 1 and var_of(call_args(cs0[0])[1]) and var_of(call_args(cs0[0])[2]), "SWITCH", "%s:one-call-with-out-arguments" % call, f.loc, "found %d" % len(cs0))
+        chk.shape(len(cs0) == 1 and var_of(call_args(cs0[0])[1]) and var_of(call_args(cs0[0])[2]), "SWITCH", "%s:one-call-with-out-arguments" % call, f.loc, "found %d" % len(cs0))
         if len(cs0) == 1:
             role[kt], role[kid] = var_of(call_args(cs0[0])[1]), var_of(call_args(cs0[0])[2])
     r0 = [e for _, _, e in f.calls("SimTK::Integrator::reinitialize")]
     if len(r0) == 1 and len(call_args(r0[0])) >= 2:
         role["lowestModified"], role["shouldTerminate"] = var_of(call_args(r0[0])[0]), var_of(call_args(r0[0])[1])
-    chk.judge(len({v for v in role.values() if v}) == 6, "SWITCH", "local-roles-resolved", f.loc, "roles: %s" % role)
+    chk.shape(len({v for v in role.values() if v}) == 6, "SWITCH", "local-roles-resolved", f.loc, "roles: %s" % role)
     hcalls = [(b, i, e) for b, i, e in f.calls("SimTK::System::handleEvents")]
-    chk.judge(len(hcalls) == len(DISPATCH), "SWITCH", "handleEvents-sites=%d" % len(DISPATCH), f.loc, "found %d" % len(hcalls))
+    chk.shape(len(hcalls) == len(DISPATCH), "SWITCH", "handleEvents-sites=%d" % len(DISPATCH), f.loc, "found %d" % len(hcalls))
     reinit = [(b, i, e) for b, i, e in f.calls("SimTK::Integrator::reinitialize")]
-    chk.judge(len(reinit) == 1, "SWITCH", "one-reinitialize", f.loc, "one reinitialize site after the switch")
+    chk.shape(len(reinit) == 1, "SWITCH", "one-reinitialize", f.loc, "one reinitialize site after the switch")
     for status, (cause, ids) in sorted(DISPATCH.items()):
         cb = caseblocks.get(status)
         if cb is None:
@@ -221,7 +221,7 @@ def candidates(chk, P):
              "is pushed (index, time estimate, transition) only under transitionSeen != NoEventTrigger")
     f = P.fn(IR + "::findEventCandidates")
     d = [x for _, _, x in f.events(lambda x: x["k"] == "decl" and x["init"] is not None and sx_find(x["init"], lambda y: y[0] == "call" and y[1].endswith("::maskTransition")))]
-    chk.judge(len(d) == 1, "REACHDEF", "transitionSeen-decl", f.loc, "one masked transition computation")
+    chk.shape(len(d) == 1, "REACHDEF", "transitionSeen-decl", f.loc, "one masked transition computation")
     if not d:
         return
     tv = d[0]["var"]
@@ -257,7 +257,7 @@ def candidates(chk, P):
     # the three output arrays by parameter position (never by name): candidates, timeEstimates, transitions are the non-const Array_& parameters, in that order
     outs = [p_[0] for p_ in f.d["params"] if "Array_<" in p_[1] and p_[1].rstrip().endswith("&") and not p_[1].lstrip().startswith("const")]
     role = dict(zip(outs, ("candidates", "timeEstimates", "transitions"))) if len(outs) == 3 else {}
-    chk.judge(len(role) == 3, "REACHDEF", "three-output-arrays", f.loc, "output array parameters: %s" % outs)
+    chk.shape(len(role) == 3, "REACHDEF", "three-output-arrays", f.loc, "output array parameters: %s" % outs)
     names = sorted(role.get(var_of(call_obj(e)), "?") for _, _, e in pushes)
     chk.judge(names == ["candidates", "timeEstimates", "transitions"], "REACHDEF", "three-parallel-pushes", f.loc, "index, time estimate and transition pushed together: %s" % names)
     for b, i, e in pushes:
@@ -378,7 +378,7 @@ def deadcond(chk, P):
                 bad = last is not None and last[2] == "=" and {last[0], last[1]} == {va, vb}
                 chk.judge(not bad, "DEADCOND", "%s:%s%s%s" % (f.name.replace("SimTK::", ""), va, c[1], vb), "%s:%d" % (f.file, t["line"]),
                           "`%s %s %s` is tested right after `%s = %s`: it can never be true" % (va, c[1], vb, last[0] if last else "?", last[1] if last else "?"))
-    chk.judge(n >= 4, "DEADCOND", "comparisons-examined", "", "variable/variable comparisons examined: %d" % n)
+    chk.shape(n >= 4, "DEADCOND", "comparisons-examined", "", "variable/variable comparisons examined: %d" % n)
 
 
 _T = "SimTKmath/Integrators/src/TimeStepper.cpp"
